@@ -29,6 +29,7 @@ import (
 	"github.com/nspcc-dev/neo-go/pkg/vm/vmstate"
 	"github.com/nspcc-dev/neo-go/verifharness/vlib/ev"
 	"github.com/nspcc-dev/neo-go/verifharness/vlib/rng"
+	"github.com/nspcc-dev/neo-go/verifharness/vlib/mptwalk"
 	"github.com/nspcc-dev/neo-go/verifharness/vlib/vchain"
 	"go.uber.org/zap"
 	"go.uber.org/zap/zapcore"
@@ -1661,6 +1662,34 @@ func (s *syncer) lockstep() *outcome {
 				return o
 			}
 		}
+	}
+	return s.nodeStoreExact(end)
+}
+
+// nodeStoreExact: once the synchronised node has processed the blocks after
+// the sync point, its trie node records must be exactly what the latest state
+// needs (reference counters = occurrences, nothing active that is unreachable,
+// nothing reachable that is missing or inactive) - a node synchronised from
+// peers is an ordinary reference-counting node from then on.
+func (s *syncer) nodeStoreExact(tip uint32) *outcome {
+	if s.bc.BlockHeight() != tip || tip <= s.p {
+		return nil
+	}
+	if _, pv := guard(func() error { return s.bc.VerifPersist() }); pv != nil {
+		return &outcome{"sync:flush-panics:" + normMsg(pv), fmt.Sprint(pv)}
+	}
+	sr, err := s.bc.GetStateRoot(tip)
+	if err != nil {
+		return nil
+	}
+	cfg := s.bc.GetConfig()
+	var act, inact int
+	v := mptwalk.Exactness(s.st.Inner, sr.Root, cfg.KeepOnlyLatestState, cfg.RemoveUntraceableBlocks, tip, func(a, ia int) { act, inact = a, ia })
+	s.run.Obs("sync_node_store_walks_after_sync", 1)
+	s.run.Obs("sync_node_store_active_nodes_walked", int64(act))
+	s.run.Obs("sync_node_store_inactive_nodes_seen", int64(inact))
+	if v != nil {
+		return &outcome{"sync:node-store-not-exact-after-sync:" + v.Sig, fmt.Sprintf("height %d (sync point %d, mode %s): %s", tip, s.p, s.sc.Mode, v.Detail)}
 	}
 	return nil
 }
